@@ -167,7 +167,7 @@ func c15Job(raw json.RawMessage) (any, error) {
 		}
 	} else {
 		types := []string{"application/json", "*/*", "", "a", "a/b"}
-		params := []string{"", ";version=1", ";version=2", ";VERSION=1", `;version="1"`, "; version=1", ";v=1", ";version=", ";version", ";version=1.0", ";v=2", `;version=""`}
+		params := []string{"", ";version=1", ";version=2", ";VERSION=1", `;version="1"`, "; version=1", ";v=1", ";version=", ";version", ";version=1.0", ";v=2", `;version=""`, ";version=1.0-RC1", ";version=1.0-rc1"}
 		try("/x", "", false)
 		for _, t := range types {
 			for _, p1 := range params {
@@ -195,8 +195,8 @@ func init() {
 		rc.Set("max_version_list", maxList)
 		rc.Set("path_max_len", maxLen)
 		rc.Assume = append(rc.Assume,
-			"path-version matchers: every ordered list of <= 2 (quick) / 3 (thorough) versions from {v1, v11, /v1, v1/, /v1/, v2, v1/x} x param name {\"\", ver} x every path over {/ v 1 2 x} up to length 7/8 plus witnesses (prefix confusion, repeated version text, 70000-byte path, non-UTF-8)",
-			"header-version matchers: key {\"\", version, v} x version lists over {1, 2, 1.0, \"\"} x Accept values: 5 media types x all pairs of 12 parameter spellings plus malformed values; mime.ParseMediaType is the stated parser and is used by the reference too",
+			"path-version matchers: every ordered list of <= 2 (quick) / 3 (thorough) versions from {v1, v11, /v1, v1/, /v1/, v2, v1/x} x param name {\"\", ver} x every path over {/ v 1 2 x} up to length 7/8 (also two 11-entry lists with a version that is a prefix of another) plus witnesses (prefix confusion, repeated version text, 70000-byte path, non-UTF-8)",
+			"header-version matchers: key {\"\", version, v} x version lists over {1, 2, 1.0, \"\", 1.0-RC1, 1.0-rc1} x Accept values: 5 media types x all pairs of 12 parameter spellings plus malformed values; mime.ParseMediaType is the stated parser and is used by the reference too",
 			"on every input: accept/reject, URL.Path afterwards, the parameters in the context (pre-seeded with one entry) and the request header map are compared with the reference; a rejection must leave all of them untouched")
 		var items []c15Item
 		var lists [][]string
@@ -226,8 +226,14 @@ func init() {
 				items = append(items, c15Item{Kind: "path", Param: p, Versions: l, MaxLen: maxLen})
 			}
 		}
+		// a long list (whatever the matcher does differently for many versions) with a version that is a prefix of another
+		for _, l := range [][]string{{"v3", "v4", "v5", "v6", "v7", "v8", "v9", "v21", "v1", "v1/x", "v22"}, {"v22", "v1/x", "v9", "v8", "v1", "v7", "v6", "v5", "v4", "v3", "v21"}} {
+			for _, p := range []string{"", "ver"} {
+				items = append(items, c15Item{Kind: "path", Param: p, Versions: l, MaxLen: maxLen})
+			}
+		}
 		for _, key := range []string{"", "version", "v", "Version"} {
-			for _, l := range [][]string{{"1"}, {"2"}, {"1", "2"}, {"2", "1"}, {"1.0"}, {""}, {"", "1"}, {"1", ""}, {"1,0", "1"}} {
+			for _, l := range [][]string{{"1"}, {"2"}, {"1", "2"}, {"2", "1"}, {"1.0"}, {""}, {"", "1"}, {"1", ""}, {"1,0", "1"}, {"1.0-RC1"}, {"1.0-rc1", "1.0-RC1"}} { // version text is compared verbatim, letters included
 				for _, p := range []string{"", "hv"} {
 					items = append(items, c15Item{Kind: "header", Param: p, Key: key, Versions: l})
 				}
